@@ -168,7 +168,9 @@ func (c *Ctx) Do(spec func() any, check func() *Violation) {
 		writeJSON(describePath(c.Prop.ID, c.Unit, ord), v)
 	}
 	c.Cases++
+	t0 := time.Now()
 	v := check()
+	slow := time.Since(t0) > 5*time.Second
 	if v == nil {
 		if c.sampleWanted(ord) {
 			c.addSample(spec())
@@ -176,7 +178,7 @@ func (c *Ctx) Do(spec func() any, check func() *Violation) {
 		return
 	}
 	// confirm: the same case must fail the same way twice more
-	for i := 0; i < 2; i++ {
+	for i := 0; i < 2 && !slow; i++ { // an expensive case is confirmed by the coordinator's fresh-process replays only
 		v2 := check()
 		if v2 == nil || v2.What != v.What {
 			c.Unrepro++
